@@ -94,3 +94,13 @@ package drpcmetadata
 //@ func Encode
 //@   props C11
 //@   trusted "ranges over a map (outside the interpreted subset): assumed to call appendEntry once per pair"
+
+//@ func Get
+//@   props C11
+//@   trusted "type assertion on a context value stored under the unexported key; the only writer is Add, which stores a map created by make"
+//@   ensures [nonnil] result1 ==> result0 != nil
+//@ func Add
+//@   props C11 C13
+//@   requires ctx != nil
+//@   modifies *
+//@   ensures [ctx] result != nil
